@@ -414,12 +414,12 @@ def doc_tree(doc: Doc) -> El:
         ])])
 
 
-NS_STYLES = ("xtce", "q", "default", "none", "none+xsi")
+NS_STYLES = ("xtce", "q", "XTCE", "default", "none", "none+xsi")
 
 
 def ns_prefix_arg(style: str):
     """The xtce_ns_prefix argument that goes with a namespace style."""
-    return {"xtce": "xtce", "q": "q", "default": None, "none": None, "none+xsi": None}[style]
+    return {"xtce": "xtce", "q": "q", "XTCE": "XTCE", "default": None, "none": None, "none+xsi": None}[style]
 
 
 def count_positions(doc: Doc) -> int:
@@ -441,7 +441,7 @@ def render_xml(doc: Doc, style: str = "xtce", comments=None, whitespace: bool = 
                tree: Optional[El] = None) -> bytes:
     """Serialise.  comments: None | 'all' | set of position indices (see count_positions)."""
     tree = tree or doc_tree(doc)
-    pfx = {"xtce": "xtce:", "q": "q:", "default": "", "none": "", "none+xsi": ""}[style]
+    pfx = {"xtce": "xtce:", "q": "q:", "XTCE": "XTCE:", "default": "", "none": "", "none+xsi": ""}[style]
     out = ["<?xml version='1.0' encoding='UTF-8'?>\n"]
     pos = [0]
 
@@ -456,7 +456,7 @@ def render_xml(doc: Doc, style: str = "xtce", comments=None, whitespace: bool = 
     def emit(e: El, depth: int, is_root=False):
         attrs = "".join(f" {k}={quoteattr(str(v))}" for k, v in e.attrs.items())
         if is_root:
-            if style in ("xtce", "q"):
+            if style in ("xtce", "q", "XTCE"):
                 attrs += f' xmlns:{pfx[:-1]}="{XTCE_URI}"'
             elif style == "default":
                 attrs += f' xmlns="{XTCE_URI}"'
@@ -627,7 +627,7 @@ def build_objects(doc: Doc, style: str = "xtce"):
     for c in doc.containers:
         if c.base is not None:
             built[c.base].inheritors.append(c.name)
-    ns = {"xtce": {"xtce": XTCE_URI}, "q": {"q": XTCE_URI}, "default": {None: XTCE_URI}, "none": {}, "none+xsi": {}}[style]
+    ns = {"xtce": {"xtce": XTCE_URI}, "q": {"q": XTCE_URI}, "XTCE": {"XTCE": XTCE_URI}, "default": {None: XTCE_URI}, "none": {}, "none+xsi": {}}[style]
     return definitions.XtcePacketDefinition(container_set=[built[c.name] for c in doc.containers], ns=ns,
                                             xtce_ns_prefix=ns_prefix_arg(style) if ns else None,
                                             root_container_name=doc.root, space_system_name=doc.name, date=doc.date)
